@@ -561,3 +561,57 @@ def payload_instances(sizes, seed):
         yield f"PdfImage.data = {n} bytes", dt.PdfImage(index=1, name="big", data=data, format="raw")
         yield f"DocxImage.data = BytesIO of {n} bytes", dt.DocxImage(rel_id="r1", filename="big.bin", data=io.BytesIO(data),
                                                                       size_bytes=n)
+
+
+# ------------------------------------------------------------------ containers with damaged picture members
+_PIC_DIRS = ("Pictures/", "word/media/", "ppt/media/", "xl/media/", "OEBPS/images/", "media/")
+
+
+def damage_pictures(pkg: bytes, kind: str):
+    """Rewrite a ZIP container so that its picture members cannot be read: kind = "crc" (stored data with
+    a flipped byte: BadZipFile on read), "method" (compression method 98, unsupported: NotImplementedError),
+    "missing" (member removed, relationships / manifest still name it), "truncated" (file cut inside the
+    member data is not expressible without breaking the central directory: the member is stored with a
+    declared size larger than its data instead -> error on read).  Returns (bytes, number of pictures)."""
+    import struct
+    import zipfile
+    src = zipfile.ZipFile(io.BytesIO(pkg))
+    out = io.BytesIO()
+    pics = []
+    with zipfile.ZipFile(out, "w") as z:
+        for info in src.infolist():
+            data = src.read(info.filename)
+            is_pic = (any(info.filename.startswith(d) or ("/" + d) in info.filename for d in _PIC_DIRS)
+                      and not info.is_dir() and len(data) > 8)
+            if is_pic and kind == "missing":
+                pics.append(info.filename)
+                continue
+            ni = zipfile.ZipInfo(info.filename, date_time=info.date_time)
+            ni.compress_type = zipfile.ZIP_STORED if (is_pic or info.filename == "mimetype") else zipfile.ZIP_DEFLATED
+            z.writestr(ni, data)
+            if is_pic:
+                pics.append(info.filename)
+    raw = bytearray(out.getvalue())
+    if kind in ("crc", "method"):
+        z = zipfile.ZipFile(io.BytesIO(bytes(raw)))
+        for info in z.infolist():
+            if info.filename not in pics:
+                continue
+            off = info.header_offset
+            nlen, elen = struct.unpack("<HH", raw[off + 26:off + 30])
+            if kind == "crc":
+                raw[off + 30 + nlen + elen + 4] ^= 0xFF
+            else:
+                raw[off + 8:off + 10] = struct.pack("<H", 98)
+        if kind == "method":      # the central directory names the method too
+            pos = 0
+            while True:
+                pos = raw.find(b"PK\x01\x02", pos)
+                if pos < 0:
+                    break
+                nlen = struct.unpack("<H", raw[pos + 28:pos + 30])[0]
+                name = bytes(raw[pos + 46:pos + 46 + nlen]).decode("utf-8", "replace")
+                if name in pics:
+                    raw[pos + 10:pos + 12] = struct.pack("<H", 98)
+                pos += 46
+    return bytes(raw), len(pics)
